@@ -192,6 +192,22 @@ def strip_comments(src: str) -> str:
     return "".join(out)
 
 
+def _outside_sections(code: str) -> str:
+    """The text of a .v file with every Section ... End block removed."""
+    out, depth = [], 0
+    for sent in re.split(r"(?<=\.)\s", code):
+        st = sent.strip()
+        if re.match(r"Section\s+\w+\s*\.", st):
+            depth += 1
+            continue
+        if depth and re.match(r"End\s+\w+\s*\.", st):
+            depth -= 1
+            continue
+        if depth == 0:
+            out.append(sent)
+    return "\n".join(out)
+
+
 def coq_files() -> list:
     files = []
     for d in COQ_DIRS:
@@ -206,9 +222,14 @@ def lint(ctx: Optional[Ctx]) -> list:
         code = strip_comments(src) if f.endswith(".v") else src
         # string literals may contain anything
         code_nostr = re.sub(r'"(?:[^"]|"")*"', '""', code)
+        # Variable / Hypothesis / Context are only allowed inside a Section
+        outside = _outside_sections(code_nostr)
         for rx, name in _BAN:
-            if re.search(rx, code_nostr):
+            target = outside if name == "axiom-like declaration" else code_nostr
+            if re.search(rx, target):
                 bad.append(f"{os.path.relpath(f, VERIF)}: {name}")
+        if re.search(r"(^|\.\s+|\n)\s*(Axiom|Axioms|Parameter|Parameters|Conjecture|Conjectures)\b", code_nostr):
+            bad.append(f"{os.path.relpath(f, VERIF)}: axiom declaration")
     if ctx is not None and bad:
         ctx.broken.append(Broken("lint", "forbidden construct in the Coq development", "; ".join(bad)))
     return bad
